@@ -53,6 +53,18 @@ pub fn build_guest_tuned(e: &mut Ent, tune: Option<&Tune>) -> Guest {
     let data = BASE + code_max;
     let mut texts: Vec<(u32, Vec<u8>)> = vec![]; // (offset in data area, bytes) - written by the guest itself before use
     let mut data_cursor = 0x200u32;
+    // the argument string comes first: some programs print their own argv words (what the loader built from
+    // it - and, through the real binary, what main() passed on from the command line)
+    let args = super::elfgen::arg_string(e);
+    let words: Vec<String> = std::iter::once("prog.elf".to_string()).chain(args.split(|ch| ch == ' ' || ch == '\t').filter(|w| !w.is_empty()).map(|w| w.to_string())).collect();
+    let argv_save = data + 0x130;
+    emit(&mut c, Insn::Store { sz: Sz::L, s: 1, ea: Ea::A24(argv_save) });
+    // values in on-chip I/O registers that nothing in the statement gives a meaning to
+    for (a, v) in e.env_noise() {
+        features.push("unrelated I/O register written");
+        emit(&mut c, Insn::MovImm { sz: Sz::B, imm: v[0] as u32, d: 14 });
+        emit(&mut c, Insn::Store { sz: Sz::B, s: 14, ea: Ea::A24(a) });
+    }
     // optional slow-bus prologue: more wait states for the DRAM area / 3-state access for area 7
     if e.chance(1, 4) {
         features.push("slow bus prologue");
@@ -97,7 +109,7 @@ pub fn build_guest_tuned(e: &mut Ent, tune: Option<&Tune>) -> Guest {
     let mut delay_loops = 0;
     let leaf_off = 0x1500u32;
     for _ in 0..nitems {
-        match e.below(12) {
+        match e.below(13) {
             0..=2 => {
                 for _ in 0..1 + e.below(4) {
                     emit(&mut c, arith(e));
@@ -163,6 +175,22 @@ pub fn build_guest_tuned(e: &mut Ent, tune: Option<&Tune>) -> Guest {
                 emit(&mut c, Insn::MovImm { sz: Sz::L, imm: blk, d: 1 });
                 emit(&mut c, Insn::Trapa(0));
                 texts.push((toff, text));
+            }
+            11 => {
+                // print argv[i] with the MES write call: pointer read at run time, length known from the string
+                features.push("argv word echoed");
+                let i = e.below(words.len().min(8) as u32);
+                let blk = data + 0x140;
+                emit(&mut c, Insn::Load { sz: Sz::L, ea: Ea::A24(argv_save), d: 1 });
+                emit(&mut c, Insn::Load { sz: Sz::L, ea: Ea::D16(1, 4 * i as u16), d: 2 });
+                emit(&mut c, Insn::MovImm { sz: Sz::L, imm: 1, d: 0 });
+                emit(&mut c, Insn::Store { sz: Sz::L, s: 0, ea: Ea::A24(blk) });
+                emit(&mut c, Insn::Store { sz: Sz::L, s: 2, ea: Ea::A24(blk + 4) });
+                emit(&mut c, Insn::MovImm { sz: Sz::L, imm: words[i as usize].len() as u32, d: 0 });
+                emit(&mut c, Insn::Store { sz: Sz::L, s: 0, ea: Ea::A24(blk + 8) });
+                emit(&mut c, Insn::MovImm { sz: Sz::L, imm: 104, d: 0 });
+                emit(&mut c, Insn::MovImm { sz: Sz::L, imm: blk, d: 1 });
+                emit(&mut c, Insn::Trapa(0));
             }
             _ => {
                 for _ in 0..1 + e.below(2) {
@@ -256,7 +284,6 @@ pub fn build_guest_tuned(e: &mut Ent, tune: Option<&Tune>) -> Guest {
     c.resize(code_max as usize, 0);
     let _ = texts;
     let file = simple_elf(&c, 0x1000, 0x400 + 4 * e.below(0x100), exit);
-    let args = super::elfgen::arg_string(e);
     // run() counts the states since the last sync relative to its own start, so a preset total is only
     // the state of a real run if it is a multiple of the sync interval (= "a sync was just sent"):
     // 2147 x 2,000,000 is the last such total below 2^32 (967,296 states below it)
@@ -862,6 +889,6 @@ pub fn run(ctx: &Ctx) -> i32 {
     stats.merge(real_phase(ctx, &real));
     drop(quiet);
     let _ = std::fs::remove_dir(std::env::temp_dir().join(format!("h8verif-{}", std::process::id())));
-    let rule = "cases = proptest-generated terminating guest programs (straight-line arithmetic, memory accesses, calls, counted delay loops sized to land on both sides of 1-3 sync thresholds, port direction/data writes, console output through the MES write call, timer start with an optional interrupt handler installed through set_handler, optional slow-bus prologue, optionally a failing instruction at the end) wrapped into an ELF whose ___exit is the program's end, with generated argument strings. Drivers: (A) elf::load + the real Cpu::run() in-process (real pacing left in) with all messages captured; (B) the statement's accounting re-implemented over single steps (poll, step, total += 3 x charge, sync when floor(total/2,000,000) grows, peripherals fed the same amount) in lockstep with (C) the reference model. Oracle: run() succeeds iff the program has no failing instruction and then PC == exit address; final registers, CCR, all five memory regions (incl. timer and port registers = what peripherals saw), cumulative state count and the exact message sequence (ioport/stdout/sync, order and stamps) of A equal B; a third of the programs is run again, and again while all cores are kept busy: byte-identical results. Non-trivial = total crosses >= 1 sync threshold, or emits an ioport/stdout message, or contains a failing instruction; distinct by ELF contents.";
+    let rule = "cases = proptest-generated terminating guest programs (straight-line arithmetic, memory accesses, calls, counted delay loops sized to land on both sides of 1-3 sync thresholds, port direction/data writes, console output through the MES write call, timer start with an optional interrupt handler installed through set_handler, optional slow-bus prologue, optionally a failing instruction at the end) wrapped into an ELF whose ___exit is the program's end, with generated argument strings. Drivers: (A) elf::load + the real Cpu::run() in-process (real pacing left in) with all messages captured; (B) the statement's accounting re-implemented over single steps (poll, step, total += 3 x charge, sync when floor(total/2,000,000) grows, peripherals fed the same amount) in lockstep with (C) the reference model. Oracle: run() succeeds iff the program has no failing instruction and then PC == exit address; final registers, CCR, all five memory regions (incl. timer and port registers = what peripherals saw), cumulative state count and the exact message sequence (ioport/stdout/sync, order and stamps) of A equal B; a third of the programs is run again, and again while all cores are kept busy: byte-identical results. Programs also print their own argv words (MES write of the pointer found at run time), write values into unrelated on-chip I/O registers, end with a burst of 3-255 port messages (1 in 4), and 1 in 4 starts at the last sync multiple below 2^32 (state count, stamps and sync totals cross 2^32). A third of the programs get a tail solved so that the total lands exactly on / just before / just after a threshold. Phase 3: 32 (quick) / 600 (thorough) programs through the repository's real release binary (-m): exit status 0 iff no failing instruction, stdout byte stream == console text + `msg: ` lines of the in-process run (covers src/main.rs incl. the argument string). Non-trivial = total crosses >= 1 sync threshold, or emits an ioport/stdout message, or contains a failing instruction; distinct by ELF contents.";
     finish(ctx, P, stats, rule, vec!["'independent of host speed' is sampled under CPU contention, not proved; no wall-clock value is ever asserted".into(), "absolute per-instruction charges are C20's subject: C13 only relates run()'s totals to the charges the steps return".into()], Map::new())
 }
